@@ -203,7 +203,7 @@ func init() {
 		return &fw.Prop{
 			ID:    "C15",
 			Level: "exploration",
-			Rule:  "cases = 'rand' (gate identifier generated from the plonky2 Debug format over the parameter grid, instantiated through GateInstanceFromId, seeded random wire / constant / public-input-hash rows over GF(p^2) with edge values) -> EvalUnfiltered must equal the reference gate polynomial vector (same length, same order); 'honest' (same gates, rows generated by the reference so that the gate is satisfied) -> every constraint is zero in circuit and reference; 'filter' (random gate sets, selector group layouts and selector values incl. a gate's own row index and the unused-selector marker) -> EvaluateGateConstraints equals sum of filter*constraints position-wise. Non-trivial = vectors compared; distinct by (identifier, row seed).",
+			Rule:  "cases = 'rand' (gate identifier generated from the plonky2 Debug format over the parameter grid, instantiated through GateInstanceFromId, seeded random wire / constant / public-input-hash rows over GF(p^2) with edge values) -> EvalUnfiltered must equal the reference gate polynomial vector (same length, same order); 'honest' (same gates, rows generated by the reference so that the gate is satisfied) -> every constraint is zero in circuit and reference; 'filter' (random gate sets, selector group layouts and selector values incl. a gate's own row index and the unused-selector marker) -> EvaluateGateConstraints equals sum of filter*constraints position-wise. Non-trivial = vectors compared; distinct by (identifier, row seed). Also: two- and three-digit BaseSum bases, coordinates (0, y) and (1, y), fewer constraint slots than the largest gate needs (must be refused), and a gate list with one gate of every type compiled with a real builder (inputs are circuit variables).",
 			Assumptions: []string{
 				"the reference gate polynomials (ref/gates.go) are validated by the reference verifier accepting all five real proofs (13 gate types) and by vanishing on reference-generated honest rows; the Poseidon gate is evaluated with the naive round structure",
 			},
